@@ -63,13 +63,50 @@ func c18Validator(kind, k int) func(uint16) bool {
 	return nil
 }
 
+// declOrder is the order in which a register list is declared: the order of declaration is not the order of the
+// addresses (ascending, descending, odd positions first, or the middle backwards between the two ends)
+func declOrder(n, a0 int) []int {
+	order := make([]int, 0, n)
+	switch {
+	case n > 0 && (a0+n)%4 == 0:
+		for i := n - 1; i >= 0; i-- {
+			order = append(order, i)
+		}
+	case n > 0 && (a0+n)%4 == 1:
+		for i := 1; i < n; i += 2 {
+			order = append(order, i)
+		}
+		for i := 0; i < n; i += 2 {
+			order = append(order, i)
+		}
+	case n > 3 && (a0+n)%4 == 2:
+		// the ends in place, what lies between them backwards
+		order = append(order, 0)
+		for i := n - 2; i >= 1; i-- {
+			order = append(order, i)
+		}
+		order = append(order, n-1)
+	default:
+		for i := 0; i < n; i++ {
+			order = append(order, i)
+		}
+	}
+	return order
+}
+
 // c18Build creates the register file through the public API only
 func c18Build(rs []c18Reg) *modbus.Regs {
 	regs := &modbus.Regs{}
 	// the registers are added in the order of the list; where the next one is the next address the first is added
 	// on its own and then once more as part of a range of two (as an application with a 16-bit and a 32-bit value at
 	// one address does): the map is the same list either way
-	for i := 0; i < len(rs); i++ {
+	order := declOrder(len(rs), func() int {
+		if len(rs) == 0 {
+			return 0
+		}
+		return rs[0].Addr
+	}())
+	for _, i := range order {
 		regs.AddReg(rs[i].Addr, 1)
 		if i+1 < len(rs) && rs[i+1].Addr == rs[i].Addr+1 && (rs[i].Addr+len(rs))%2 == 0 {
 			regs.AddReg(rs[i].Addr, 2)
